@@ -350,6 +350,9 @@ pub struct Ctx {
   pub strict: bool, // replay mode: known findings are not tolerated silently, they are still reported as KNOWN
   pub start: Instant,
   pub replay_dir: String,
+  /// maximum number of shrink iterations of the proptest runners (lowered by sections whose cases
+  /// are expensive, e.g. one process per case)
+  pub shrink_iters: std::sync::atomic::AtomicU32,
 }
 
 #[derive(Debug)]
@@ -428,7 +431,7 @@ impl Ctx {
             cases: per as u32,
             failure_persistence: None,
             rng_seed: RngSeed::Fixed(s0),
-            max_shrink_iters: 4096,
+            max_shrink_iters: self.shrink_iters.load(Ordering::Relaxed),
             max_global_rejects: 1 << 20,
             max_local_rejects: 1 << 16,
             ..Config::default()
